@@ -136,7 +136,13 @@ impl<M: MovingAverageConstructor> IndicatorInstance for EnvelopesInstance<M> {
 		let src = candle.source(self.cfg.source);
 		let v = self.ma.next(&src);
 
-		let (value1, value2) = (v * self.k_high, v * self.k_low);
+		// keep the upper bound above the lower one also when the moving average is negative
+		// (HMA, DEMA, TEMA and LinReg can undershoot below zero even on positive prices)
+		let (value1, value2) = if v >= 0. {
+			(v * self.k_high, v * self.k_low)
+		} else {
+			(v * self.k_low, v * self.k_high)
+		};
 
 		let src2 = candle.source(self.cfg.source2);
 		// let signal = if src2 < value2 {
